@@ -19,6 +19,8 @@ THEOREMS = [
     "Glob.tokens_fuel", "Regex.nongreedy_irrelevant",
     "Privacy.default_meaning", "Privacy.exact_wins", "Privacy.last_pattern_wins", "Privacy.default_applies",
     "Privacy.precedence_partial", "Privacy.precedence_counterexample",
+    "Privacy.parseRule_wellFormed", "Privacy.cli_rules_wellFormed", "Privacy.precedence_cli_partial",
+    "Privacy.cli_never_raises", "Privacy.cli_rejects_backwards_range",
     "Privacy.cache_transparent", "Privacy.cache_counterexample", "Privacy.isVisible_meaning",
     "Privacy.main_module_counterexample",
 ]
@@ -26,9 +28,11 @@ PARTIAL = {
     "Glob.qnmatch_partial": "full statement (every pattern gives an answer equal to the manual's meaning) is false: "
                             "excluded = patterns with a bracket expression holding a descending range (Glob.wellFormed = false); "
                             "witness Glob.qnmatch_counterexample ([b-a])",
-    "Privacy.precedence_partial": "excluded = rule lists holding a pattern with a descending range, and modules named __main__ "
-                                  "(Module.privacyClass never consults the rules); witnesses Privacy.precedence_counterexample, "
-                                  "Privacy.main_module_counterexample",
+    "Privacy.precedence_partial": "arbitrary rule lists (options.privacy filled by hand): excluded = lists holding a pattern with a "
+                                  "descending range, and modules named __main__ (Module.privacyClass never consults the rules); "
+                                  "witnesses Privacy.precedence_counterexample, Privacy.main_module_counterexample",
+    "Privacy.precedence_cli_partial": "rule lists accepted by the option parser (every --privacy list): no hypothesis on the patterns; "
+                                      "excluded = modules named __main__ (open finding); witness Privacy.main_module_counterexample",
     "Privacy.cache_transparent": "hypothesis: two queried objects with the same qualified name have the same name and kind "
                                  "(the cache is keyed by qualified name only); witness Privacy.cache_counterexample",
 }
@@ -36,8 +40,10 @@ RULE = ("exhaustive: every pattern of length <= 4 (quick) / <= 5 (thorough) over
         "<= 4 / <= 5 over {a b . _}: text of qnmatch.translate, result or exception class of qnmatch.qnmatch vs the Lean model, "
         "and vs an independent matcher written from the manual (direct oracle); random longer patterns/names over a wider "
         "alphabet (backslash, ^, space, newline, non-ASCII) evaluated in shuffled order (lru_cache); every rule list of length "
-        "<= 3 over 3 levels x 6 rule texts (exact and pattern) on a real System with random query histories "
-        "(privacyClass / isVisible / isPrivate, cache content compared). Non-trivial = pattern has a metacharacter and some "
+        "<= 3 over 3 levels x 6 rule texts (exact and pattern) given as --privacy values, parsed by the real option code, on a "
+        "real System with random query histories (privacyClass / isVisible / isPrivate, cache content compared); every pattern "
+        "of the exhaustive space through parse_privacy_tuple (accepted iff well formed); hand-made rule lists put into "
+        "options.privacy directly (the only way a pattern re refuses still reaches qnmatch). Non-trivial = pattern has a metacharacter and some "
         "name matches and some does not (glob streams) / the list has a rule that applies to a queried object (privacy streams).")
 ASSUMPTIONS = [
     "re.compile/match of CPython 3.12 on the emitted fragment behaves as Regex.parseSet/Regex.matchA say (exercised by every glob stream)",
@@ -234,6 +240,18 @@ def impl_match(p: str, names: Sequence[str]) -> Tuple[Optional[List[bool]], Opti
     return (None, err) if err else (res, None)
 
 
+def impl_parse(value: str) -> str:
+    from pydoctor import utils
+    try:
+        with contextlib.redirect_stderr(io.StringIO()):
+            lv, p = utils.parse_privacy_tuple(value, "--privacy")
+        return f"ok {lv.name} {enc(p)}"
+    except SystemExit:
+        return "SystemExit"
+    except Exception as e:
+        return exc_name(e)
+
+
 def fail_kind(toks) -> str:
     return "+".join(sorted({t[0] for t in toks if t[0] != "ch"})) or "literal"
 
@@ -254,8 +272,10 @@ def check_glob_case(p: str, names: Sequence[str], tr: str, bits, err, obits, tok
     if not tr.startswith("ok "):
         return ("translate-raises:" + tr, {"pattern": p}, f"qnmatch.translate({p!r}) raised {tr}")
     if err is not None:
+        # qnmatch raising is a failure of the property exactly when the pattern can arrive there from --privacy
+        # (since c6e4102 the option parser refuses what re refuses; should that ever stop being true this fires again)
         if not accepted_as_rule(p):
-            return None  # cannot be given as --privacy pattern
+            return None
         why = "descending-range" if not o_wellformed(toks) else "other"
         return (f"raises:{err}:{why}", {"pattern": p, "names": list(names[:3])},
                 f"qnmatch.qnmatch(name, {p!r}) raised {err} instead of answering (a --privacy rule with this pattern is accepted)")
@@ -282,7 +302,11 @@ def _enum_chunk(arg):
         spec_line = ("wf " if o_wellformed(toks) else "desc ") + hexbits(obits)
         verdict = check_glob_case(p, names, tr, bits, err, obits, toks)
         nontriv = bool(META & set(p)) and bits is not None and any(bits) and not all(bits)
-        out.append((impl_line, spec_line, verdict, nontriv, (sum(bits) if bits else 0)))
+        parse_line = impl_parse("PUBLIC:" + p)
+        if verdict is None and parse_line == "SystemExit" and o_wellformed(toks):
+            verdict = ("parser-rejects-wellformed-pattern", {"value": "PUBLIC:" + p},
+                       f"--privacy=PUBLIC:{p} is refused although the pattern has a meaning in the manual")
+        out.append((impl_line, spec_line, verdict, nontriv, parse_line))
     return out
 
 
@@ -301,15 +325,19 @@ def run_exhaustive(ctx: Ctx) -> None:
     a = enc(ALPHA_N)
     reqs = [f"glob enum {enc(p)} {a} {nlen}" for p in pats]
     sreqs = [f"glob specenum {enc(p)} {a} {nlen}" for p in pats]
-    for p, rq, (impl_line, spec_line, verdict, nontriv, nmatch) in zip(pats, reqs, results):
+    preqs = [f"privacy parse {enc('PUBLIC:' + p)}" for p in pats]
+    for p, rq, (impl_line, spec_line, verdict, nontriv, parse_line) in zip(pats, reqs, results):
         ctx.case(rq, nontriv, {"pattern": p, "request": rq, "impl": impl_line[:120]} if nontriv and len(p) == plen and len(ctx.samples) < 2 else None)
         ctx.count("glob-exhaustive:patterns")
         ctx.count("glob-exhaustive:" + ("raises" if impl_line.endswith("Error") else "all-or-none" if not nontriv else "some-match"))
+        ctx.count("parse-exhaustive:" + parse_line.split()[0])
         if verdict:
             ctx.fail(*verdict)
     ctx.compare("glob-exhaustive", reqs, [r[0] for r in results], [{"pattern": p} for p in pats])
     # the Lean statement of the manual (Glob.spec, the right-hand side of translate_correct) against the harness oracle
     ctx.compare("glob-spec-vs-oracle", sreqs, [r[1] for r in results], [{"pattern": p, "what": "spec"} for p in pats])
+    # the option parser on every pattern of the space (accepted iff re accepts the translation)
+    ctx.compare("parse-exhaustive", preqs, [r[4] for r in results], [{"value": "PUBLIC:" + p} for p in pats])
     ctx.extra["exhaustive_patterns"] = len(pats)
     ctx.extra["exhaustive_names"] = nn
     ctx.extra["exhaustive_pairs"] = len(pats) * nn
@@ -406,7 +434,8 @@ def run_random(ctx: Ctx) -> None:
 
 LEVELS = ["HIDDEN", "PRIVATE", "PUBLIC"]
 LCODE = {"HIDDEN": "H", "PRIVATE": "P", "PUBLIC": "U"}
-RULE_TEXTS = ["p.m.C", "p.__main__", "p.m.*", "**._*", "p.?.[A-C]*", "p.m.[b-a]*"]
+RULE_TEXTS = ["p.m.C", "p.__main__", "p.m.*", "**._*", "p.?.[A-C]*", "p.m.C.[!_]*"]
+BAD_TEXTS = ["p.m.[b-a]*", "**.[a--]", "p.[_-.]*"]
 
 # (qualified name, class) in creation order; parents come first
 TREE = [
@@ -424,17 +453,21 @@ KIND_NONE = {"p.m.k"}
 _DEFAULT_OPTS: Any = None
 
 
-def build_system(rule_strings: Sequence[str], via_args: bool = False):
-    """a real System holding TREE, its privacy option parsed by the real code"""
+def build_system(rule_strings: Sequence[str], via: Any = False):
+    """a real System holding TREE; its privacy option is parsed by the real code (via = True: Options.from_args,
+    False: the converter of the attrs field) or, via = "raw", put into options.privacy by hand without any parsing"""
     from pydoctor import model, options
     global _DEFAULT_OPTS
-    if via_args:
+    if via is True:
         opts = options.Options.from_args(["--privacy=" + r for r in rule_strings])
     else:
         if _DEFAULT_OPTS is None:
             _DEFAULT_OPTS = options.Options.defaults()
         opts = copy.copy(_DEFAULT_OPTS)
-        opts.privacy = options._convert_privacy(list(rule_strings))   # the converter of the attrs field: parse_privacy_tuple
+        if via == "raw":
+            opts.privacy = [(model.PrivacyClass[r.split(":", 1)[0]], r.split(":", 1)[1]) for r in rule_strings]
+        else:
+            opts.privacy = options._convert_privacy(list(rule_strings))   # parse_privacy_tuple on each value
     system = model.System(opts)
     objs: Dict[str, Any] = {}
     for full, cls in TREE:
@@ -445,6 +478,20 @@ def build_system(rule_strings: Sequence[str], via_args: bool = False):
         system.addObject(ob)
         objs[full] = ob
     return system, objs
+
+
+def static_obj_token(full: str) -> str:
+    """token of a TREE object without a System (only used when the rule list was refused)"""
+    cls = dict(TREE)[full]
+    return "%s/%s/%s%s" % (enc(full), enc(full.rpartition(".")[2]), "m" if cls in ("Module", "Package") else "o",
+                           "n" if full in KIND_NONE else "k")
+
+
+def static_chain(full: str) -> List[str]:
+    out = [full]
+    while "." in out[-1]:
+        out.append(out[-1].rpartition(".")[0])
+    return out
 
 
 def obj_token(ob) -> str:
@@ -481,18 +528,27 @@ def privacy_eval(rules: Sequence[Tuple[str, str]], queries: Sequence[Tuple[str, 
     """one rule list + one query history on a fresh real System; pure (runs in worker processes)"""
     from pydoctor import model
     rule_strings = [f"{lv}:{pat}" for lv, pat in rules]
+    raw = via_args == "raw"
+    head = (["privacy run"] + [f"R {LCODE[lv]} {enc(pat)}" for lv, pat in rules]) if raw else \
+           (["privacy cli"] + [f"V {enc(r)}" for r in rule_strings])
+    fails: List[Tuple[str, Any, str]] = []
     try:
         with contextlib.redirect_stderr(io.StringIO()):
             system, objs = build_system(rule_strings, via_args)
     except SystemExit:
-        # the option parser refuses the rule list: nothing is documented at all, the property is silent
-        line = " ".join(["privacy run"] + [f"R {LCODE[lv]} {enc(pat)}" for lv, pat in rules])
-        return {"line": line, "impl": "SystemExit", "answers": ["SystemExit"], "fails": [], "applies": False,
+        # the option parser refuses the rule list: nothing is documented at all. The property only asks that a list
+        # of patterns that all have a meaning is not refused.
+        if all(o_wellformed(o_tokens(pat)) for _, pat in rules):
+            fails.append(("parser-rejects-wellformed-pattern", {"rules": rule_strings, "queries": []},
+                          f"--privacy {rule_strings} is refused although every pattern has a meaning in the manual"))
+        req = list(head)
+        for op, full in queries:   # the queries travel anyway: the model must refuse the list by itself
+            req.append("Q %s %s" % (op, ";".join(static_obj_token(x) for x in (static_chain(full) if op == "v" else [full]))))
+        return {"line": " ".join(req), "impl": "SystemExit", "answers": ["SystemExit"], "fails": fails, "applies": False,
                 "rules": rule_strings, "queries": [list(q) for q in queries]}
     parsed = [(lv.name, pat) for lv, pat in system.options.privacy]
     answers = []
-    fails: List[Tuple[str, Any, str]] = []
-    req = ["privacy run"] + [f"R {LCODE[lv]} {enc(pat)}" for lv, pat in parsed]
+    req = list(head)
     applies = False
     for op, full in queries:
         ob = objs[full]
@@ -523,7 +579,9 @@ def privacy_eval(rules: Sequence[Tuple[str, str]], queries: Sequence[Tuple[str, 
             inp = {"rules": rule_strings, "queries": [list(q) for q in queries], "failing_query": [op, full]}
             mains = [x for x in scope if isinstance(x, model.Module) and x.name == "__main__"]
             meth = {"c": "privacyClass", "v": "isVisible", "p": "isPrivate"}[op]
-            if got.endswith("Error"):
+            if got.endswith("Error") and raw:
+                pass   # a hand-made rule list: qnmatch raising on a pattern re refuses is outside the property
+            elif got.endswith("Error"):
                 bad = [pat for _, pat in parsed if not o_wellformed(o_tokens(pat))]
                 fails.append((f"raises:{got}:" + ("descending-range" if bad else "other"), inp,
                               f"{full}.{meth} raised {got} under --privacy {rule_strings}"))
@@ -575,8 +633,10 @@ def rand_rule_text(rng) -> str:
     r = rng.random()
     if r < 0.3:
         return rng.choice([t[0] for t in TREE])
-    if r < 0.4:
+    if r < 0.38:
         return rng.choice(RULE_TEXTS)
+    if r < 0.42:
+        return rng.choice(BAD_TEXTS)
     parts = []
     for _ in range(rng.randint(1, 4)):
         parts.append(rng.choice(["p", "m", "_m", "C", "_C", "*", "**", "?", "_*", "__*__", "[A-C]", "[!_]*", "[_]*", "f", "*f", "[c-a]", "__main__"]))
@@ -596,10 +656,16 @@ def run_privacy(ctx: Ctx) -> None:
         rules = [(ctx.rng.choice(LEVELS), rand_rule_text(ctx.rng)) for _ in range(ctx.rng.randint(0, 6))]
         jobs.append((rules, rand_queries(ctx.rng, 14), False))
     privacy_stream(ctx, "privacy-random", jobs)
+    # rule lists put into options.privacy by hand (no option parsing): the model's `privacy run`, where a pattern
+    # that re refuses still reaches qnmatch and the re.error escapes from System.privacyClass
+    jobs = []
+    for _ in range(300 if ctx.quick else 4000):
+        rules = [(ctx.rng.choice(LEVELS), ctx.rng.choice(RULE_TEXTS + BAD_TEXTS + BAD_TEXTS)) for _ in range(ctx.rng.randint(1, 4))]
+        jobs.append((rules, rand_queries(ctx.rng, 10), "raw"))
+    privacy_stream(ctx, "privacy-raw", jobs)
 
 
 def run_parse(ctx: Ctx) -> None:
-    from pydoctor import utils
     rng = ctx.rng
     reqs, impls, pay = [], [], []
     heads = ["PUBLIC", "public", "Private", "HIDDEN", "hidden", "VISIBLE", "visible", "PUBLIK", "", "1", "HIDDEN PUBLIC", "_", "PrivacyClass.PUBLIC", "name"]
@@ -608,15 +674,10 @@ def run_parse(ctx: Ctx) -> None:
         if rng.random() < 0.3:
             h = rng.choice([" ", "\t", "\x1c", "\x0b", ""]) + h + rng.choice([" ", "\n", "\x1f", ""])
         pat = "".join(rng.choice("ab.*?[]! \t_-") for _ in range(rng.randint(0, 6)))
+        if rng.random() < 0.15:
+            pat += rng.choice(["[b-a]", "[!a--]", "[a-b]", "[_-.]x"])
         value = rng.choice([h + ":" + pat] * 6 + [h + pat, h + ":" + pat + ":" + pat, ":" + pat, h + "::" + pat])
-        try:
-            with contextlib.redirect_stderr(io.StringIO()):
-                lv, p = utils.parse_privacy_tuple(value, "--privacy")
-            got = f"ok {lv.name} {enc(p)}"
-        except SystemExit:
-            got = "SystemExit"
-        except Exception as e:
-            got = exc_name(e)
+        got = impl_parse(value)
         reqs.append("privacy parse " + enc(value))
         impls.append(got)
         pay.append({"value": value})
@@ -656,6 +717,20 @@ def replay(ctx: Ctx, obj) -> int:
         v = check_glob_case(p, names, tr, bits, err, obits, toks)
         print("oracle :", v[2] if v else "property holds on this input")
         return 1 if v else 0
+    if isinstance(inp, dict) and "value" in inp:
+        rq = "privacy parse " + enc(inp["value"])
+        got = impl_parse(inp["value"])
+        print("value  :", repr(inp["value"]))
+        print("impl   :", got)
+        try:
+            print("model  :", ctx.driver.run([rq])[0])
+        except Exception as e:
+            print("model  : unavailable", e)
+        pat = inp["value"].partition(":")[2].strip()
+        bad = got == "SystemExit" and inp["value"].count(":") == 1 and o_wellformed(o_tokens(pat)) and \
+            inp["value"].partition(":")[0].strip().upper() in ("PUBLIC", "PRIVATE", "HIDDEN", "VISIBLE")
+        print("oracle :", "a pattern with a meaning in the manual is refused" if bad else "property holds on this input")
+        return 1 if bad else 0
     if isinstance(inp, dict) and "rules" in inp:
         rules = [tuple(r.split(":", 1)) for r in inp["rules"]]
         r = privacy_eval(rules, [tuple(q[:2]) for q in inp["queries"]], False)
